@@ -1098,7 +1098,8 @@ def run(tier):
 
 def _run(tier):
     chk = common.Check(PROP, tier, exes=[MODEL])
-    chk.cov["rule"] = ("one evaluation = one input through an entry point, or one model/real comparison; "
+    chk.cov["rule"] = ("one evaluation = one input through an entry point, or one model/real comparison, or "
+                       "(round 3) one node location of a real module IR checked by the IR-location oracle; "
                        "non-trivial & distinct = distinct (outcome class, normalised first error message) of the "
                        "exploration + distinct model answers of the FORMAT/PROCESS/QUEUE ties")
     chk.trusted += ["Python str.splitlines/repr as oracles for the model's re-implementations (tied by ops SPLITLINES/REPR)",
